@@ -127,29 +127,30 @@ class SeqEq:
             return bv
         if z3.is_app(bv) and bv.num_args() > 0:
             if bv.decl().kind() == z3.Z3_OP_UNINTERPRETED and any(z3.is_seq(bv.arg(i)) for i in range(bv.num_args())):
-                flat = self.flatten(bv.arg(0))
+                # every argument takes part in the class: byte-string arguments flattened, bit-vector arguments abstracted
+                args = [("s", self.flatten(bv.arg(i))) if z3.is_seq(bv.arg(i)) else ("b", self.abstract(bv.arg(i))) for i in range(bv.num_args())]
                 name = bv.decl().name()
                 var = None
-                for (n2, f2, v2) in self.classes:
-                    if n2 == name and self.provably_equal(flat, f2):
+                for (n2, a2, v2) in self.classes:
+                    if n2 == name and self._args_equal(args, a2):
                         var = v2
                         break
                 if var is None:
                     self.n += 1
                     var = z3.Const(f"{name}#{self.n}", bv.sort())
                     # Ackermann: functional consistency with every earlier application of the same function whose
-                    # argument has the same shape (equal argument bytes => equal results); so a model in which two
+                    # arguments have the same shape (equal argument bytes => equal results); so a model in which two
                     # digests differ also makes their preimages differ
-                    for (n2, f2, v2) in self.classes:
+                    for (n2, a2, v2) in self.classes:
                         if n2 != name:
                             continue
                         try:
-                            eqs = self.align(flat, f2)
+                            eqs = self._args_align(args, a2)
                         except Mismatch:
                             continue
                         if eqs:
                             self.s.add(z3.Implies(z3.And(*eqs), var == v2))
-                    self.classes.append((name, flat, var))
+                    self.classes.append((name, args, var))
                 r = var
             elif bv.decl().kind() == z3.Z3_OP_UNINTERPRETED and not any(z3.is_seq(c) for c in bv.children()):
                 # uninterpreted function of bit-vectors (external big-number multiplication/division): class variable per
@@ -202,6 +203,28 @@ class SeqEq:
                 if x[1].get_id() != y[1].get_id():
                     eqs.append(x[1] == y[1])
         return eqs
+
+    def _args_align(self, X, Y):
+        if len(X) != len(Y):
+            raise Mismatch("different arity")
+        eqs = []
+        for (kx, x), (ky, y) in zip(X, Y):
+            if kx != ky:
+                raise Mismatch("argument kinds differ")
+            if kx == "s":
+                eqs += self.align(x, y)
+            elif x.get_id() != y.get_id():
+                eqs.append(x == y)
+        return eqs
+
+    def _args_equal(self, X, Y):
+        try:
+            eqs = self._args_align(X, Y)
+        except Mismatch:
+            return False
+        if not eqs:
+            return True
+        return self._check(z3.Not(z3.And(*eqs))) == z3.unsat
 
     def provably_equal(self, A, B):
         try:
